@@ -12,8 +12,9 @@ harness (mc/drivers/files_io.py), against mc/ref/dataset.py:
                 every (no-data pattern, mask value) pair occurs, with disparity interval / grids, classification and
                 segmentation rasters rotated (thorough: all of them);
   * roi reads : create_dataset_from_inputs for EVERY ROI x margins in {0,2}^4 on 4x5 and 1x1 file sets that carry a
-                mask, no-data samples, a disparity grid, a classification and a segmentation: ROI read == crop of
-                Pandora's own full read (coordinates included), refusal <=> empty intersection.
+                mask, no-data samples and (quick: one of, rotating over the ROIs; thorough: also all of) a disparity
+                grid, a classification, a segmentation: ROI read == crop of Pandora's own full read (coordinates
+                included), refusal <=> empty intersection.
 """
 from __future__ import annotations
 
@@ -28,7 +29,7 @@ from mc.ref import dataset as REF
 
 ID = "C16"
 LEVEL = "exploration"
-BUDGET = {"quick": 150, "thorough": 900}
+BUDGET = {"quick": 240, "thorough": 1500}
 CHUNK = 16
 RULE = (
     "windows: one case per (image, column ROI), looping every row ROI x margins {0,1,2}^4, non-trivial when the window "
@@ -141,9 +142,11 @@ def spaces(tier, seed):
                     k = (cf + 3) * 7 + (cl + 3) * 3 + (rf + 3) + seed + w
                     nvar = len(ROI_VARIANTS)
                     variants = [(k + j * 2) % nvar for j in range(6)] if tier == "thorough" else [k % nvar]
-                    for v in variants:
+                    for j, v in enumerate(variants):
+                        # quick: the optional rasters (disparity grid | classification | segmentation) rotate over
+                        # the ROIs, the mask and the no-data samples are always there; thorough: all of them at once
                         yield {"kind": "roi", "w": w, "h": h, "cf": cf, "cl": cl, "rf": rf, "variant": v,
-                               "seed": seed}
+                               "ex": "all" if tier == "thorough" and j % 2 == 0 else (k + j) % 3, "seed": seed}
 
     return [
         {"name": "get_window: every ROI x margins {0,1,2}^4 on 4x5 and 1x1", "level": 0, "cases": windows, "chunk": 2},
@@ -387,7 +390,8 @@ def run_full(case):
 def run_roi(case):
     w, h, cf, cl, rf = case["w"], case["h"], case["cf"], case["cl"], case["rf"]
     nb, dtype, nodata, dmode, mdtype = ROI_VARIANTS[case["variant"]]
-    spec = build_raster(h, w, nb, dtype, nodata, mdtype, (case["seed"] + cf + 3) % 15, (dmode, 2, 1), case["seed"],
+    extras = {"all": (dmode, 2, 1), 0: (dmode, 0, 0), 1: ("list", 2, 0), 2: (None, 0, 1)}[case.get("ex", "all")]
+    spec = build_raster(h, w, nb, dtype, nodata, mdtype, (case["seed"] + cf + 3) % 15, extras, case["seed"],
                         georef=(cf + cl) % 2, tag=0)
     viol, sigs = {}, set()
     n = trivial = 0
@@ -408,7 +412,7 @@ def run_roi(case):
                 n += 1
                 clipped = exp is None or exp != (cf - m[0], cl + m[2], rf - m[1], rl + m[3])
                 if clipped:
-                    sigs.add(f"r|{w}x{h}|{case['variant']}|{exp}|" + ("refused" if ds is None else
+                    sigs.add(f"r|{w}x{h}|{case['variant']}|{case.get('ex')}|{exp}|" + ("refused" if ds is None else
                                                                      _dig(ds["im"].data) + str(sorted(ds.data_vars))))
                 else:
                     trivial += 1
